@@ -115,6 +115,9 @@ func runC09(c *Ctx) {
 		}
 	}
 	voidAtoms := sc.voidTestAtoms()
+	// a void element in the default skip set that the void table does not list opens a region that never closes:
+	// every later end tag of an already emitted element is then dropped
+	c08VoidCoverage(sc, "C09.R4")
 	evPush, evPop, evWrote := A.EventVar("pushed"), A.EventVar("popped"), A.EventVar("tag-written")
 
 	type armRun struct {
